@@ -85,7 +85,9 @@ def _case(draw):
             'nvalid': draw(st.integers(70, 110)), 'k': draw(st.integers(1, 3)),
             # delimited framings only: the valid traffic itself arrives in arbitrary pieces (frames split across reads)
             'vcut': draw(st.one_of(st.none(), st.none(), st.tuples(st.just('every'), st.integers(1, 23)).map(list))),
-            'receiver': draw(st.sampled_from(['framer', 'framer', 'sync_serial', 'sync_serial', 'aio_tcp', 'tw_tcp']))}
+            'receiver': draw(st.sampled_from(['framer', 'framer', 'sync_serial', 'sync_serial', 'aio_tcp', 'tw_tcp'])),
+            # reads that time out and return nothing (serial port), anywhere in the history; dropped for the socket-style receivers
+            'empties': draw(st.one_of(st.just([]), st.lists(st.integers(0, 200), min_size=1, max_size=5)))}
 
 
 def strategy(tier):
@@ -121,6 +123,10 @@ def run_case(case):
         reads[-1] = reads[-1] + valid_reads[0]
         valid_reads = valid_reads[1:]
     reads = reads + valid_reads
+    if case.get('empties') and case['receiver'] in ('framer', 'sync_serial'):
+        for pos_ in sorted(case['empties'], reverse=True):
+            reads.insert(pos_ % (len(reads) + 1), b'')
+        labels.append('empty-reads')
     e = len(garbage)
     L = WINDOW[framing]
     # offsets of valid frames in the whole stream
